@@ -7,6 +7,15 @@ def _calls(node, attr):
     return [n for n in ast.walk(node) if isinstance(n, ast.Call) and isinstance(n.func, ast.Attribute) and n.func.attr == attr]
 
 
+def _directives(text):
+    """number of %-conversion directives in a template ('%%' is none); only plain %s %r %d are understood"""
+    import re
+    rest = text.replace('%%', '')
+    found = re.findall(r'%[srd]', rest)
+    need(rest.count('%') == len(found), 'log template has a conversion directive the extractor does not understand: %r' % (text,))
+    return len(found)
+
+
 @table('T18')
 def gen_T18():
     t = tree('src/schedule.py')
@@ -28,6 +37,33 @@ def gen_T18():
          'Schedule.run: expected one try/except around the call')
     need(handler_names(trys[0].handlers[0]) == ['Exception'], 'Schedule.run: handler is not `except Exception`')
     need(len(trys[0].body) == 1 and ast.unparse(trys[0].body[0]) == 'f(*args, **kwargs)', 'Schedule.run: call is not f(*args, **kwargs)')
+    # the handler: exactly one statement, log.exception(<constant template>[, names...]) -- or, tolerated as a modelled
+    # shape, <constant template> % name (eager interpolation of the event name, which can raise for tuple names)
+    hb = trys[0].handlers[0].body
+    need(trys[0].handlers[0].name is None and len(hb) == 1 and isinstance(hb[0], ast.Expr) and isinstance(hb[0].value, ast.Call)
+         and ast.unparse(hb[0].value.func) == 'log.exception' and not hb[0].value.keywords and len(hb[0].value.args) >= 1,
+         'Schedule.run: the except handler is not a single log.exception(...) call')
+    largs = hb[0].value.args
+    need(all(isinstance(a, ast.Name) for a in largs[1:]), 'Schedule.run: log.exception gets a non-variable logging argument')
+    tmpl = largs[0]
+    interpolates = False
+    if isinstance(tmpl, ast.BinOp):
+        need(isinstance(tmpl.op, ast.Mod) and isinstance(tmpl.left, ast.Constant) and isinstance(tmpl.left.value, str),
+             'Schedule.run: log template is not a constant or constant % value: ' + ast.unparse(tmpl))
+        right = tmpl.right
+        text = tmpl.left.value
+        if isinstance(right, ast.Tuple):        # '...' % (name,): wrapped, cannot raise when the counts match
+            need(all(isinstance(e, ast.Name) for e in right.elts), 'Schedule.run: log template interpolates an expression')
+            need(_directives(text) == len(right.elts), 'Schedule.run: log template directives do not match the interpolated tuple')
+        else:
+            need(isinstance(right, ast.Name) and right.id == 'name', 'Schedule.run: log template interpolates something else than the event name: ' + ast.unparse(right))
+            interpolates = True
+        need(len(largs) == 1, 'Schedule.run: interpolated template and logging arguments together')
+    else:
+        need(isinstance(tmpl, ast.Constant) and isinstance(tmpl.value, str), 'Schedule.run: log template is not a string constant')
+        text = tmpl.value
+        need(len(largs) == 1 or _directives(text) == len(largs) - 1, 'Schedule.run: log template directives do not match the logging arguments')
+    directives = _directives(text)
     need(not any(isinstance(n, (ast.Break, ast.Return, ast.Raise)) for n in ast.walk(loops[0])),
          'Schedule.run: break/return/raise inside the loop')
     # addEvent: assert name not in self.events; heappush of (t, name, args, kwargs)
@@ -84,4 +120,6 @@ def gen_T18():
     out = 'Definition RUN_CMP_STRICT : bool := %s.\n' % cbool(strict)
     out += 'Definition RESCHED_PASSES_ARGS : bool := %s.\n' % cbool(passes)
     out += 'Definition WRAPPER_RETURNS_IN_FINALLY : bool := %s.\n' % cbool(returns)
+    out += 'Definition RUN_LOG_INTERPOLATES_NAME : bool := %s.\n' % cbool(interpolates)
+    out += 'Definition RUN_LOG_DIRECTIVES : N := %d.\n' % directives
     return 'src/schedule.py', out
